@@ -39,7 +39,7 @@ func init() {
 		},
 		Subs: []h.Sub{
 			{
-				Name: "pairs", Count: h.Fixed(200000, 20000000),
+				Name: "pairs", Count: h.Fixed(200000, 150000000),
 				Run: func(c *h.Ctx, idx uint64, r *h.Rand) {
 					p := c18point(r)
 					var q orb.Point
@@ -141,7 +141,7 @@ func init() {
 				},
 			},
 			{
-				Name: "areas-and-lengths", Count: h.Fixed(20000, 2000000),
+				Name: "areas-and-lengths", Count: h.Fixed(20000, 15000000),
 				Run: func(c *h.Ctx, idx uint64, r *h.Rand) {
 					// --- box closed form
 					lon0, lat0 := r.Uniform(-175, 170), r.Uniform(-85, 80)
